@@ -54,6 +54,7 @@ func c18Cases() []c18Params {
 					c18List = append(c18List, c18Params{Variant: v, Secret: secret, Suite: su, I: i, Mask: m})
 				}
 				add("cookieless-repeat", 5, 0)
+				add("cookieless-then-silent", 0, 0)
 				add("valid-control", 0, 0)
 				for _, f := range []string{"vers", "random", "session", "suites", "suites-order", "compression"} {
 					add("field:"+f, 0, 0)
@@ -217,6 +218,21 @@ func (c18) Run(c *Case, src *vs.Src) *Result {
 		}
 		if env.KeyOps.Total() != 0 {
 			verdicts = append(verdicts, fmt.Sprintf("private keys used before a valid cookie: %+v", *env.KeyOps))
+		}
+		if p.Variant == "cookieless-then-silent" {
+			// the sender of the hello goes away: whatever timers the server runs, it must not send anything more
+			vs.Sleep(20 * time.Second)
+			n, bytesOut := 0, 0
+			for _, d := range net.SentLog() {
+				if d.Dir == simnet.DirS2C {
+					n++
+					bytesOut += len(d.Data)
+				}
+			}
+			if n != 1 {
+				verdicts = append(verdicts, fmt.Sprintf("one cookie-less ClientHello followed by silence drew %d datagrams (%d bytes) from the server within 20 s", n, bytesOut))
+			}
+			return
 		}
 		if p.Variant == "cookieless-repeat" {
 			return
